@@ -122,6 +122,26 @@ def run(ctx):
     for name, data, _ in base:
         for k in range(2 if q else 8):
             sources.append(("%s~mut%d" % (name, k), mutate(data, rnd), True))
+    # the optional per-block format / rate words (CHFF, CHFR) holding 0, in every data block that carries them (at every depth):
+    # a value like any other - a file that loads is a fixed point after one cycle
+    def zero_words(data, cid_):
+        cs = tlv.to_json_nested(data)
+        hit = [0]
+        def walk(lst):
+            for c in lst:
+                if c["isn"]:
+                    walk(c["nested"])
+                elif c["id"] == cid_ and any(c["data"]):
+                    c["data"] = [0] * len(c["data"])
+                    hit[0] += 1
+        walk(cs)
+        return tlv.from_json_nested(cs) if hit[0] else None
+    for name, data, _ in base:
+        if "ampler" in name or name.startswith("bnd-"):
+            for cid_ in ("CHFR", "CHFF"):
+                v = zero_words(data, cid_)
+                if v is not None:
+                    sources.append(("%s~%s0" % (name, cid_.lower()), v, True))
     # files whose explicit slot chunks make two in-links claim the same out slot of one source (a written SLnK zeroed):
     # loadable, so inside the quantifier
     from .. import links
